@@ -23,11 +23,10 @@ LEAN_MODULE = 'CC.Properties.C13'
 LEVEL = 'proof'
 THEOREMS = [
     'CC.C13_closure', 'CC.C13_closure_terminates', 'CC.C13_unique_rep', 'CC.C13_same_label_iff', 'CC.C13_named',
-    'CC.C13_polarity_partial', 'CC.C13_polarity_counterexample', 'CC.C13_polarity_counterexample_sem',
-    'CC.C13_netlist', 'CC.C13_realising_unique',
+    'CC.C13_polarity', 'CC.C13_netlist', 'CC.C13_realising_unique',
     'CC.C13_geometry', 'CC.C13_wire_split', 'CC.C13_order', 'CC.C13_tables',
 ]
-OPEN_STATEMENTS = ['CC.C13_polarity_statement']
+OPEN_STATEMENTS = []
 ASSUMPTIONS = [
     'schemdraw placement (element → absanchors) is a parameter: the model receives the anchors the real objects carry; '
     'the oracle additionally checks that they are the points the drawing program named',
